@@ -116,6 +116,25 @@ def gen_expr(rng, depth, bounds):
         return gen_leaf(rng, bounds)
     r = rng.random()
     op = rng.choice(OPS)
+    if depth >= 1 and rng.random() < 0.15:
+        # aimed: a chain of three or four operands under ONE operator, nested to the left or to the right, mostly over
+        # calendars that have a value everywhere: (a - b) - c is not a - b - c when a - b is negative (it means "no
+        # capacity" and is then skipped), nor is (a / b) / c the same as a / (b / c)
+        op = rng.choice(['sub', 'sub', 'sub', 'div', 'or', 'add', 'mul'])
+        leaves = [['fixed', gen_num(rng, allow_neg=False), None, None] if rng.random() < 0.75 else gen_leaf(rng, bounds)
+                  for _ in range(rng.randint(3, 4))]
+        if op == 'sub' and rng.random() < 0.6:          # the first difference is negative
+            leaves[0] = ['fixed', ['i', rng.choice([1, 2, 3])], None, None]
+            leaves[1] = ['fixed', ['i', rng.choice([4, 5, 8])], None, None]
+        if rng.random() < 0.7:
+            e = leaves[0]
+            for l in leaves[1:]:
+                e = ['binc', op, e, l]
+        else:
+            e = leaves[-1]
+            for l in reversed(leaves[:-1]):
+                e = ['binc', op, l, e]
+        return e
     if r < 0.5:
         return ['binc', op, gen_expr(rng, depth - 1, bounds), gen_expr(rng, depth - 1, bounds)]
     if r < 0.8:
